@@ -2,6 +2,7 @@
 import json, os
 from .. import common
 from ..e2.checklib import Lemma, run_lemmas
+from ..lemmas_tape import multi_root_lemmas
 from ..e2.intr_chunks import ChunkIntrinsics
 from ..e2 import run as e2run
 
@@ -68,6 +69,6 @@ def run(ctx):
                "only the mode-independent framing and the Uncompressed arms are executed")
     ctx.assume("the three `go func(){...}()` in Serialize are run to completion at the go statement (they write disjoint fields)")
     ctx.assume("Deserialize never reads the Serializer's comp*/fasterComp fields (so its own mode is irrelevant): checked by running it on a fresh default-mode Serializer")
-    run_lemmas(ctx, z1_lemmas(ctx.tier))
+    run_lemmas(ctx, multi_root_lemmas(ctx.tier) + z1_lemmas(ctx.tier))
     if not ctx.only:
         z3_noasm_identical(ctx)
